@@ -95,7 +95,7 @@ func (s *verifC07Store) SetConfig(*config.Config) error { return nil }
 // verifC07DeltaStore additionally hands out stored deltas (delta reuse).
 type verifC07DeltaStore struct {
 	*verifC07Store
-	deltas []*verifC07Delta // nil entry: object i is stored whole
+	deltas []plumbing.DeltaObject // nil entry: object i is stored whole
 }
 
 func (s *verifC07DeltaStore) DeltaObject(t plumbing.ObjectType, h plumbing.Hash) (plumbing.EncodedObject, error) {
@@ -398,7 +398,8 @@ func VerifHarness_C07_ofs_codec() {
 // DeltaSelector leaves them in, with arbitrary delta links among them
 // (chains, forks, cycles of length 2 and 3):
 //
-//	type      symbolic commit/tree/blob/tag, equal along a link
+//	type      symbolic commit/tree/blob/tag, equal along a link (RESCAN=1:
+//	          all blobs, and the real Scanner re-reads the pack)
 //	content   CMIN..CMAX symbolic bytes
 //	link      none, or any other object of the list
 //	delta     DMIN..DMAX symbolic bytes (opaque to the encoder)
@@ -420,13 +421,19 @@ func VerifHarness_C07_encode() {
 	n := verifrt.Param("N")
 	hs := verifrt.Param("HS")
 	useRef := verifrt.Range(0, 1) == 1
+	rescan := verifrt.Param("RESCAN") == 1
 	st := &verifC07Store{sha256: hs == 32}
 	types := make([]plumbing.ObjectType, n)
 	contents := make([][]byte, n)
 	for i := 0; i < n; i++ {
-		t := verifrt.NondetByte()
-		verifrt.Assume(t >= 1 && t <= 4)
-		types[i] = plumbing.ObjectType(t)
+		if rescan {
+			// the Scanner's object hasher forks on the type name
+			types[i] = plumbing.BlobObject
+		} else {
+			t := verifrt.NondetByte()
+			verifrt.Assume(t >= 1 && t <= 4)
+			types[i] = plumbing.ObjectType(t)
+		}
 		contents[i] = verifrt.NondetBytes(verifrt.Range(verifrt.Param("CMIN"), verifrt.Param("CMAX")))
 		st.objs = append(st.objs, verifC07NewObj(verifC07ID(i, hs), types[i], contents[i]))
 	}
@@ -535,5 +542,442 @@ func VerifHarness_C07_encode() {
 			verifrt.Assert(e.size == uint64(len(contents[i])) && verifrt.BytesEq(e.payload, contents[i]), "c07-encode-object-content")
 		}
 	}
+	if rescan {
+		verifC07Rescan(out, hs, &p)
+	}
+}
+
+// ------------------------------------- H3: Encoder.Encode, real selection ----
+
+var verifC07T = []byte("0123456789abcdefFEDCBA9876543210the quick brown.")
+
+type verifC07CatEntry struct {
+	t plumbing.ObjectType
+	c []byte
+}
+
+// verifC07Catalog: concrete objects (the real delta selection runs on them:
+// sort, sliding window, diffDelta). 2,3,4 are blobs that delta well against
+// each other (whole 16-byte blocks in common), 5,6 the same bytes as trees.
+func verifC07Catalog() []verifC07CatEntry {
+	t := verifC07T
+	x3 := append(append([]byte{}, t[:32]...), "ZYXWVUTSRQPONMLK"...)
+	x4 := append(append([]byte{}, t...), "ponmlkjihgfedcba"...)
+	return []verifC07CatEntry{
+		{plumbing.BlobObject, nil},
+		{plumbing.BlobObject, []byte("x")},
+		{plumbing.BlobObject, t},
+		{plumbing.BlobObject, x3},
+		{plumbing.BlobObject, x4},
+		{plumbing.TreeObject, t},
+		{plumbing.TreeObject, x4},
+		{plumbing.CommitObject, []byte("tree 4b825dc642cb6eb9a060e54bf8d69288fbee4904\n\nm\n")},
+	}
+}
+
+var verifC07Windows = []uint{0, 10, 1, 2, 50}
+
+// verifC07Resolved is what an entry of the pack stands for.
+type verifC07Resolved struct {
+	ok      bool
+	t       plumbing.ObjectType
+	content []byte
+	cat     int // index in the catalog, -1 if it is none of its objects
+	depth   int
+}
+
+// verifC07Resolve resolves every entry the way index-pack does: a whole
+// entry is (type, inflated bytes); an OFS_DELTA applies (git's patch_delta)
+// to the entry at the named offset, a REF_DELTA to the entry of the pack whose
+// object has the named id (ids are the catalog's assigned ids).
+func verifC07Resolve(p *verifC07Pack, cat []verifC07CatEntry, hs int) []verifC07Resolved {
+	res := make([]verifC07Resolved, len(p.entries))
+	find := func(r *verifC07Resolved) {
+		r.cat = -1
+		for k, ce := range cat {
+			if ce.t == r.t && bytes.Equal(ce.c, r.content) {
+				r.cat = k
+			}
+		}
+	}
+	for i := range p.entries {
+		e := &p.entries[i]
+		if e.typ >= 1 && e.typ <= 4 {
+			res[i] = verifC07Resolved{ok: uint64(len(e.payload)) == e.size, t: plumbing.ObjectType(e.typ), content: e.payload}
+			find(&res[i])
+		}
+	}
+	// deltas: iterate to a fixed point (a REF_DELTA base may follow its delta)
+	for round := 0; round < len(p.entries); round++ {
+		for i := range p.entries {
+			e := &p.entries[i]
+			if res[i].ok || (e.typ != 6 && e.typ != 7) || uint64(len(e.payload)) != e.size {
+				continue
+			}
+			base := -1
+			for j := range p.entries {
+				if !res[j].ok {
+					continue
+				}
+				if e.typ == 6 && p.entries[j].off == e.baseOff {
+					base = j
+				}
+				if e.typ == 7 && res[j].cat >= 0 && bytes.Equal(verifC07ID(res[j].cat, hs).Bytes(), e.baseRef) {
+					base = j
+				}
+			}
+			if base < 0 {
+				continue
+			}
+			out, ok := gitPatchDelta(res[base].content, e.payload)
+			if !ok {
+				continue
+			}
+			res[i] = verifC07Resolved{ok: true, t: res[base].t, content: out, depth: res[base].depth + 1}
+			find(&res[i])
+		}
+	}
+	return res
+}
+
+// verifC07RecSelector runs the real DeltaSelector and records whether its
+// result satisfies what encode relies on: every Base is itself in the list.
+type verifC07RecSelector struct {
+	inner    *DeltaSelector
+	called   int
+	closed   bool
+	maxDepth int
+}
+
+func (r *verifC07RecSelector) ObjectsToPack(hashes []plumbing.Hash, w uint) ([]*ObjectToPack, error) {
+	r.called++
+	l, err := r.inner.ObjectsToPack(hashes, w)
+	r.closed = true
+	for _, o := range l {
+		if o.Depth > r.maxDepth {
+			r.maxDepth = o.Depth
+		}
+		if o.Base == nil {
+			continue
+		}
+		in := false
+		for _, q := range l {
+			if q == o.Base {
+				in = true
+			}
+		}
+		if !in {
+			r.closed = false
+		}
+	}
+	return l, err
+}
+
+type verifC07Diverged struct{}
+
+// verifC07Fuel bounds the calls of DeltaObject.BaseHash: chain fixing asks
+// each stored delta for its base at most once per chain it walks, so a run
+// over n objects needs at most n*n calls; more means it does not terminate.
+var verifC07Fuel int
+
+type verifC07FuelDelta struct{ verifC07Delta }
+
+func (d *verifC07FuelDelta) BaseHash() plumbing.Hash {
+	verifC07Fuel--
+	if verifC07Fuel < 0 {
+		panic(verifC07Diverged{})
+	}
+	return d.base
+}
+
+// verifC07EncodeGuarded runs Encoder.Encode; diverged reports that the fuel
+// ran out (the real code recurses without end).
+func verifC07EncodeGuarded(enc *Encoder, hashes []plumbing.Hash, window uint) (ret plumbing.Hash, err error, diverged bool) {
+	defer func() {
+		if r := recover(); r != nil {
+			if _, ok := r.(verifC07Diverged); ok {
+				diverged = true
+				return
+			}
+			panic(r)
+		}
+	}()
+	ret, err = enc.Encode(hashes, window)
+	return ret, err, false
+}
+
+// verifC07CheckSelected: the oracle shared by select and reuse.
+func verifC07CheckSelected(out []byte, ret plumbing.Hash, hs int, cat []verifC07CatEntry, req []int, window uint, storedDeltas bool) {
+	want := make([]int, len(cat)) // 1 for every requested object
+	distinct := 0
+	dups := false
+	for _, k := range req {
+		if want[k] == 0 {
+			distinct++
+		} else {
+			dups = true
+		}
+		want[k] = 1
+	}
+	// FINDING: a hash listed twice is written twice
+	verifrt.Known("C07-duplicate-hash-written-twice", dups)
+	p := verifC07CheckFrame(out, hs, ret)
+	res := verifC07Resolve(&p, cat, hs)
+	seen := make([]int, len(cat))
+	allOK := true
+	onlyRequested := true
+	baseFirst := true
+	deltaEntries := 0
+	for i := range p.entries {
+		e := &p.entries[i]
+		if !res[i].ok {
+			allOK = false
+			continue
+		}
+		if res[i].cat < 0 || want[res[i].cat] == 0 {
+			onlyRequested = false
+		} else {
+			seen[res[i].cat]++
+		}
+		if e.typ == 6 || e.typ == 7 {
+			deltaEntries++
+			// base-before-delta: the base the entry names lies before it
+			found := false
+			for j := 0; j < i; j++ {
+				if e.typ == 6 && p.entries[j].off == e.baseOff {
+					found = true
+				}
+				if e.typ == 7 && res[j].ok && res[j].cat >= 0 && bytes.Equal(verifC07ID(res[j].cat, hs).Bytes(), e.baseRef) {
+					found = true
+				}
+			}
+			if !found {
+				baseFirst = false
+			}
+		}
+	}
+	verifrt.Assert(allOK, "c07-select-every-entry-resolves")
+	verifrt.Assert(onlyRequested, "c07-select-only-requested-objects")
+	once := true
+	all := true
+	for k := range cat {
+		if want[k] == 1 && seen[k] == 0 {
+			all = false
+		}
+		if seen[k] > 1 {
+			once = false
+		}
+	}
+	verifrt.Assert(all, "c07-select-every-requested-object-present")
+	verifrt.Assert(once, "c07-select-every-object-once")
+	verifrt.Assert(len(p.entries) == distinct, "c07-select-entry-count-is-number-of-objects")
+	verifrt.Assert(baseFirst, "c07-select-base-before-delta")
+	if window == 0 {
+		verifrt.Assert(deltaEntries == 0, "c07-select-window-zero-writes-no-deltas")
+	}
+	if deltaEntries > 0 {
+		verifrt.Reach("c07-select-delta-written")
+	}
+	for i := range res {
+		if res[i].ok && res[i].depth >= 2 {
+			verifrt.Reach("c07-select-delta-chain")
+		}
+	}
 	verifC07Rescan(out, hs, &p)
+}
+
+// select: Encoder.Encode (DeltaSelector.ObjectsToPack + encode) over a
+// store holding the first K catalog objects whole; the request is a list of L
+// slots, each empty or any of the K objects (DUP=0: no object twice); window
+// from {0,10,1,2,50}[:W]; OFS_DELTA / REF_DELTA; hash size HS.
+func VerifHarness_C07_select() {
+	verifC07Install()
+	hs := verifrt.Param("HS")
+	k := verifrt.Param("K")
+	cat := verifC07Catalog()[:k]
+	st := &verifC07Store{sha256: hs == 32}
+	for i, ce := range cat {
+		st.objs = append(st.objs, verifC07NewObj(verifC07ID(i, hs), ce.t, ce.c))
+	}
+	var req []int
+	var hashes []plumbing.Hash
+	for s := 0; s < verifrt.Param("L"); s++ {
+		c := verifrt.Range(-1, k-1)
+		if c < 0 {
+			continue
+		}
+		if verifrt.Param("DUP") == 0 {
+			for _, q := range req {
+				verifrt.Assume(q != c)
+			}
+		}
+		req = append(req, c)
+		hashes = append(hashes, verifC07ID(c, hs))
+	}
+	window := verifC07Windows[verifrt.Range(0, verifrt.Param("W")-1)]
+	useRef := verifrt.Range(0, 1) == 1
+
+	var buf bytes.Buffer
+	rec := &verifC07RecSelector{inner: NewDeltaSelector(st)}
+	enc := NewEncoder(&buf, st, useRef, WithObjectSelector(rec))
+	ret, err := enc.Encode(hashes, window)
+	verifrt.Reach("c07-select-done")
+	verifrt.Assert(err == nil, "c07-select-no-error")
+	if err != nil {
+		return
+	}
+	verifrt.Assert(rec.called == 1 && rec.closed, "c07-select-every-base-is-in-the-list")
+	verifC07CheckSelected(buf.Bytes(), ret, hs, cat, req, window, false)
+}
+
+// reuse: the store is a DeltaObjectStorer: blobs 2,3,4 of the catalog are
+// each stored whole or as a (valid, DiffDelta-made) delta against one of the
+// other two, in every combination, cycles included (an object found as a
+// delta in one pack and its base as a delta on it in another); blob 1 is
+// stored whole. The request is an ordered selection of L of the four
+// objects, so a stored base may be missing from the request.
+func VerifHarness_C07_reuse() {
+	verifC07Install()
+	hs := verifrt.Param("HS")
+	cat := verifC07Catalog()[:5]
+	base := &verifC07Store{sha256: hs == 32}
+	for i, ce := range cat {
+		base.objs = append(base.objs, verifC07NewObj(verifC07ID(i, hs), ce.t, ce.c))
+	}
+	st := &verifC07DeltaStore{verifC07Store: base, deltas: make([]plumbing.DeltaObject, len(cat))}
+	sd := make([]int, len(cat))
+	for i := range sd {
+		sd[i] = -1
+	}
+	for i := 2; i <= 4; i++ {
+		sd[i] = verifrt.Range(1, 4)
+		if sd[i] == 1 {
+			sd[i] = -1 // stored whole
+		}
+		verifrt.Assume(sd[i] != i)
+		if sd[i] >= 0 {
+			d := &verifC07FuelDelta{}
+			d.id = verifC07ID(i, hs)
+			d.base = verifC07ID(sd[i], hs)
+			d.actualSize = int64(len(cat[i].c))
+			d.SetType(plumbing.OFSDeltaObject)
+			_, _ = d.Write(DiffDelta(cat[sd[i]].c, cat[i].c))
+			st.deltas[i] = d
+		}
+	}
+	var req []int
+	var hashes []plumbing.Hash
+	for s := 0; s < verifrt.Param("L"); s++ {
+		c := verifrt.Range(verifrt.Param("LO"), 4)
+		for _, q := range req {
+			verifrt.Assume(q != c)
+		}
+		req = append(req, c)
+		hashes = append(hashes, verifC07ID(c, hs))
+	}
+	window := verifC07Windows[verifrt.Range(verifrt.Param("WMIN"), verifrt.Param("W")-1)]
+	useRef := verifrt.Range(0, 1) == 1
+
+	// do the stored deltas of requested objects form a cycle inside the request?
+	inReq := make([]bool, len(cat))
+	for _, c := range req {
+		inReq[c] = true
+	}
+	cyclic := false
+	for _, c := range req {
+		j := sd[c]
+		for step := 0; step < len(cat) && j >= 0 && inReq[j]; step++ {
+			if j == c {
+				cyclic = true
+			}
+			j = sd[j]
+		}
+	}
+
+	var buf bytes.Buffer
+	rec := &verifC07RecSelector{inner: NewDeltaSelector(st)}
+	enc := NewEncoder(&buf, st, useRef, WithObjectSelector(rec))
+	verifC07Fuel = len(req)*len(req) + 4
+	ret, err, diverged := verifC07EncodeGuarded(enc, hashes, window)
+	verifrt.Reach("c07-reuse-done")
+	if cyclic {
+		verifrt.Reach("c07-reuse-cyclic")
+	}
+	// FINDING: stored deltas that form a cycle make fixAndBreakChainsOne
+	// recurse without end (fatal stack overflow natively)
+	verifrt.Known("C07-cyclic-stored-deltas-recurse-forever", cyclic && window != 0)
+	verifrt.Assert(!diverged, "c07-reuse-chain-fixing-terminates")
+	if diverged {
+		return
+	}
+	verifrt.Assert(err == nil, "c07-reuse-no-error")
+	if err != nil {
+		return
+	}
+	verifrt.Assert(rec.called == 1 && rec.closed, "c07-reuse-every-base-is-in-the-list")
+	verifC07CheckSelected(buf.Bytes(), ret, hs, cat, req, window, true)
+}
+
+// chain: M blobs, blob i = 48 common bytes + i further 16-byte blocks, so
+// every blob deltas well against the next larger one; requested in ascending,
+// descending or interleaved order; window from {10,1,2,50} (window 2 chains
+// every blob on its predecessor: depth M-1, capped by maxDepth = 50).
+func VerifHarness_C07_chain() {
+	verifC07Install()
+	hs := verifrt.Param("HS")
+	m := verifrt.Param("M")
+	var cat []verifC07CatEntry
+	for i := 0; i < m; i++ {
+		c := append([]byte{}, verifC07T...)
+		for b := 0; b < i; b++ {
+			for x := 0; x < 16; x++ {
+				c = append(c, byte(0x80+b*3+x*7))
+			}
+		}
+		cat = append(cat, verifC07CatEntry{plumbing.BlobObject, c})
+	}
+	st := &verifC07Store{sha256: hs == 32}
+	for i, ce := range cat {
+		st.objs = append(st.objs, verifC07NewObj(verifC07ID(i, hs), ce.t, ce.c))
+	}
+	var req []int
+	switch verifrt.Range(0, 2) {
+	case 0:
+		for i := 0; i < m; i++ {
+			req = append(req, i)
+		}
+	case 1:
+		for i := m - 1; i >= 0; i-- {
+			req = append(req, i)
+		}
+	default:
+		for i := 0; i < m; i += 2 {
+			req = append(req, i)
+		}
+		for i := 1; i < m; i += 2 {
+			req = append(req, i)
+		}
+	}
+	var hashes []plumbing.Hash
+	for _, c := range req {
+		hashes = append(hashes, verifC07ID(c, hs))
+	}
+	window := verifC07Windows[verifrt.Range(1, verifrt.Param("W")-1)]
+	useRef := verifrt.Range(0, 1) == 1
+
+	var buf bytes.Buffer
+	rec := &verifC07RecSelector{inner: NewDeltaSelector(st)}
+	enc := NewEncoder(&buf, st, useRef, WithObjectSelector(rec))
+	ret, err := enc.Encode(hashes, window)
+	verifrt.Reach("c07-chain-done")
+	verifrt.Assert(err == nil, "c07-chain-no-error")
+	if err != nil {
+		return
+	}
+	verifrt.Assert(rec.called == 1 && rec.closed, "c07-chain-every-base-is-in-the-list")
+	verifrt.Assert(rec.maxDepth <= 50, "c07-chain-depth-at-most-50")
+	if rec.maxDepth >= verifrt.Param("DEPTH") {
+		verifrt.Reach("c07-chain-deep")
+	}
+	verifC07CheckSelected(buf.Bytes(), ret, hs, cat, req, window, false)
 }
